@@ -553,6 +553,23 @@ class DestHandler:
             self._handle_finished_pdu_sent()
         if self.states.step == TransactionStep.WAITING_FOR_FINISHED_ACK:
             self._handle_waiting_for_finished_ack(pdu_holder)
+        if (
+            packet is not None
+            and self.states.state == CfdpState.BUSY
+            and self.transmission_mode == TransmissionMode.ACKNOWLEDGED
+            and pdu_holder.pdu_directive_type == DirectiveType.EOF_PDU
+            and self.states.step
+            in [TransactionStep.WAITING_FOR_MISSING_DATA, TransactionStep.WAITING_FOR_FINISHED_ACK]
+        ):
+            # CFDP 4.7.2: Every received EOF PDU must be acknowledged, also repeated ones.
+            self._add_packet_to_be_sent(
+                AckPdu(
+                    self._params.pdu_conf,
+                    DirectiveType.EOF_PDU,
+                    pdu_holder.to_eof_pdu().condition_code,
+                    TransactionStatus.ACTIVE,
+                )
+            )
 
     def _fsm_advancement_after_packets_were_sent(self) -> None:
         """Advance the internal FSM after all packets to be sent were retrieved from the handler."""
